@@ -205,6 +205,10 @@ def build_cases():
 
 
 CASES = build_cases()
+# (appended) non-finite numbers for Int positions: what Python's JSON decoder produces for 1e400 / Infinity / NaN; the literal 1e400 is a FloatValue
+_INF = float("inf")
+CASES += [("Int", _INF, "1e400"), ("Int", -_INF, "-1e400"), ("Int!", _INF, "1e400"), ("[Int]", [1, _INF], "[1, 1e400]"), ("[Int!]", _INF, "1e400"), ("In", {"req": _INF}, "{req: 1e400}"),
+          ("Int", 1.5, "1.5")]      # (numbers only: values of ANOTHER JSON kind - true for Int, 1.5 for ID - are outside the property's quantifier, see DESIGN 8.3)
 N_CASES = len(CASES)
 
 
